@@ -501,8 +501,3 @@ Proof.
   rewrite per_fst, per_snd, <- map_rev, !concat_map_flat_map. rewrite !iobs_eqb_refl. cbn [andb]. apply orb_true_r.
 Qed.
 
-(* ------------------------------------------------------------------ every kind *)
-Theorem matches_holds c : case_matches c = true -> case_holds c = true.
-Proof.
-  destruct c; [apply marshal_case_sound|apply unm_case_sound|apply big_case_sound|apply tip_case_sound|apply bigs_case_sound|apply tips_case_sound].
-Qed.
